@@ -15,6 +15,10 @@ WTARGET = os.path.join(R.CACHE, 'witness-target')
 
 # (unit regex, fn regex) -> witness cases to try, in order
 CASES = [
+    (r'ef\.builder', r'(push|push_unchecked|build)', ['ef_builder', 'ef_seq']),
+    (r'ef\.builder', r'.*', ['ef_seq', 'ef_builder']),
+    (r'ef\.iter', r'.*', ['ef_seq']),
+    (r'ef\.(guards|dict).*', r'.*', ['ef_dict']),
     (r'lenders\..*', r'.*', ['lenders']),
     (r'rank9', r'.*', ['rank9']),
     (r'rank_small.*', r'.*', ['rank_all']),
